@@ -49,6 +49,15 @@ SPEC (a dict; everything the source does not say itself)
   maybe_attrs  places of type `Option T` that stand for attributes which may not exist yet: a read is AttributeError on `none`
   pairdicts {place: default literal}: a dict keyed by a bool that is only read through `.get(k, default)`: the pair of
             its values at False / True (absent = default)
+  list_truth   True: `if xs:` on a list is `len(xs) != 0`
+  setattr_names  {name expression: attribute}: `setattr(obj, <name>, v)` with a literal name or one of these is `obj.<attribute> = v`
+  absent_or_none  places `ns.a : Option T` whose `none` stands for "attribute absent, or None": `if 'a' not in ns or ns.a is None: …; return`
+               narrows the place to the value in what follows
+  stmt_rewrites  {statement text: python statements}: a call into a library outside the subset (dpkt), stated as assignments from
+               `calls` externals — what the library does is then a parameter of the theorem, the glue around it is translated
+  raise_as     {exception expression: PyRt.Err constructor}: `raise X`
+  externals named `py_int` / `str_lower`: `int(s)` of a str (`Option Int`, none = ValueError; also `[int(x) for x in strs]`) and `s.lower()`
+  `[x for x in xs if c]` (c cannot raise) is `List.filter`
 types: Int, Nat (an int known to be ≥ 0), Bool, Bytes, List T, Set T (a Python set; only `in` and `|` under `in`),
        Option T, Dict K V, anything else = an opaque type with decidable equality (only == != and assignment).
 """
@@ -422,6 +431,26 @@ class Translator:
 
     def e_ListComp(self, node, env):
         """`[e for x in it]` (one generator, no condition, an element expression that cannot raise)"""
+        g0 = node.generators[0] if len(node.generators) == 1 else None
+        if (g0 is not None and len(g0.ifs) == 1 and not g0.is_async and isinstance(g0.target, ast.Name) and isinstance(node.elt, ast.Name)
+                and node.elt.id == g0.target.id):
+            # `[x for x in xs if c]` with a condition that cannot raise: the elements for which it holds, in order
+            saved = self.hoists
+            self.hoists = []
+            try:
+                lst, bound, hs = self.loop_iter(g0, env)
+                if hs or self.hoists:
+                    self.bad(node, "a list comprehension whose iterable may raise")
+            finally:
+                self.hoists = saved
+            env2 = dict(env)
+            for n, t, nn in bound:
+                env2[n] = V(lname(n), t, nn)
+            c = self.strict(lambda: self.expr(g0.ifs[0], env2))
+            if c.typ != "Bool" or len(bound) != 1:
+                self.bad(node, "list comprehension condition that is not a bool")
+            et = ty(bound[0][1])
+            return V(f"(List.filter (fun ({lname(bound[0][0])} : {et}) => {c.term}) {lst})", f"List {ty_arg(bound[0][1]) if ' ' in et else bound[0][1]}")
         if len(node.generators) != 1 or node.generators[0].ifs or node.generators[0].is_async:
             self.bad(node, "list comprehension with several generators or a condition")
         g = node.generators[0]
@@ -436,6 +465,11 @@ class Translator:
         env2 = dict(env)
         for n, t, nn in bound:
             env2[n] = V(lname(n), t, nn)
+        if (len(bound) == 1 and bound[0][1] == "Str" and isinstance(node.elt, ast.Call) and self.key(node.elt.func) == "int"
+                and len(node.elt.args) == 1 and not node.elt.keywords and isinstance(node.elt.args[0], ast.Name)
+                and node.elt.args[0].id == bound[0][0] and any(n == "py_int" for n, _ in self.spec.get("externals", ()))):
+            # `[int(x) for x in strs]`: the first element `int` refuses raises ValueError (nothing else happens in the rounds before)
+            return V(self.hoist(f"PyRt.someE PyRt.Err.value (List.mapM py_int {lst})", "List Int", node), "List Int")
         e = self.strict(lambda: self.expr(node.elt, env2))
         ety = " × ".join(ty_arg(t) if " " in ty(t) else ty(t) for _, t, _ in bound)
         if len(bound) == 1:
@@ -964,6 +998,9 @@ class Translator:
                 x = self.expr(node.args[0], env)
                 if is_int(x.typ):
                     return x
+                if x.typ == "Str" and any(n == "py_int" for n, _ in self.spec.get("externals", ())):
+                    # `int(s)` of a str: the external `py_int : List Nat → Option Int` (`none` = ValueError)
+                    return V(self.hoist(f"PyRt.someE PyRt.Err.value (py_int {x.term})", "Int", node), "Int")
                 self.bad(node, f"int() of {x.typ}")
             if len(node.args) == 2 and all(isinstance(a, ast.Constant) for a in node.args):
                 try:
@@ -982,6 +1019,11 @@ class Translator:
                 self.bad(node, f"key of type {kx.typ} for a bool-keyed dict place")
             p = self.read_place(pk, env, node)
             return V(f"(if {kx.term} then {p.term}.2 else {p.term}.1)", unparen(split_prod(p.typ)[0]))
+        if isinstance(f, ast.Attribute) and f.attr == "lower" and not node.args and not kw and any(n == "str_lower" for n, _ in self.spec.get("externals", ())):
+            x = self.expr(f.value, env)
+            if x.typ != "Str":
+                self.bad(node, f"lower() of {x.typ}")
+            return V(f"(str_lower {x.term})", "Str")          # `s.lower()`: Unicode case mapping, the external `str_lower`
         one = lambda a: isinstance(a, ast.Constant) and isinstance(a.value, str) and len(a.value) == 1
         if isinstance(f, ast.Attribute) and f.attr == "split" and len(node.args) == 1 and not kw and one(node.args[0]):
             x = self.expr(f.value, env)
@@ -1183,6 +1225,30 @@ class Translator:
         if (self.spec.get("log_effects") and isinstance(st, ast.Expr) and isinstance(st.value, ast.Call)
                 and (self.key(st.value.func) == "print" or self.key(st.value.func).startswith("logging."))):
             return self.log_effects(st, rest, env, frame)
+        if (isinstance(st, ast.Expr) and isinstance(st.value, ast.Call) and self.key(st.value.func) == "setattr"
+                and len(st.value.args) == 3 and not st.value.keywords and "setattr_names" in self.spec):
+            # `setattr(obj, name, v)` with a literal name, or a name expression the spec gives the value of (`self.dest` of an
+            # argparse action): the assignment `obj.<name> = v`
+            o_, n_, v_ = st.value.args
+            nm_ = (n_.value if isinstance(n_, ast.Constant) and isinstance(n_.value, str)
+                   else self.spec["setattr_names"].get(self.key(n_)))
+            if nm_ is None:
+                self.bad(st, "setattr with a name that is neither a literal nor given by the spec")
+            asg = ast.Assign(targets=[ast.Attribute(value=o_, attr=nm_, ctx=ast.Store())], value=v_)
+            ast.copy_location(asg, st)
+            ast.fix_missing_locations(asg)
+            return self.block([asg] + list(rest), env, frame)
+        if self.key(st) in self.spec.get("stmt_rewrites", {}):
+            # a call into a library outside the subset whose effect the spec states as assignments from externals
+            new = ast.parse(textwrap.dedent(self.spec["stmt_rewrites"][self.key(st)])).body
+            for n_ in new:
+                for m_ in ast.walk(n_):
+                    ast.copy_location(m_, st)
+            return self.block(list(new) + list(rest), env, frame)
+        if isinstance(st, ast.Raise) and st.exc is not None and st.cause is None and self.key(st.exc) in self.spec.get("raise_as", {}):
+            # `raise X` for an exception the spec maps to one of PyRt's
+            self.raises = True
+            return frame.raise_("PyRt.Err." + self.spec["raise_as"][self.key(st.exc)], env)
         if self.dropped(st):
             return self.block(rest, env, frame)
         if any(ast.unparse(st).startswith(p) for p in self.spec.get("drop_stmts", ())):
@@ -1724,6 +1790,10 @@ class Translator:
                 self.hoists, self.tmp = saved
             if t == "Option Bool":
                 new = ast.Compare(left=node, ops=[ast.Eq()], comparators=[ast.Constant(value=True)])      # None and False are falsy
+            elif t is not None and t.startswith("List ") and self.spec.get("list_truth"):
+                # spec `list_truth`: `if xs:` on a list is `len(xs) != 0`
+                new = ast.Compare(left=ast.Call(func=ast.Name(id="len", ctx=ast.Load()), args=[node], keywords=[]), ops=[ast.NotEq()],
+                                  comparators=[ast.Constant(value=0)])
             elif t is None or not is_int(t):
                 return node
             else:
@@ -1731,6 +1801,20 @@ class Translator:
         ast.copy_location(new, node)
         ast.fix_missing_locations(new)
         return new
+
+    def absent_or_none(self, t):
+        """`'a' not in ns or ns.a is None` for a place `ns.a` the spec lists under `absent_or_none` → its key"""
+        if not (isinstance(t, ast.BoolOp) and isinstance(t.op, ast.Or) and len(t.values) == 2):
+            return None
+        a, b = t.values
+        if not (isinstance(a, ast.Compare) and len(a.ops) == 1 and isinstance(a.ops[0], ast.NotIn) and isinstance(a.left, ast.Constant)
+                and isinstance(a.left.value, str) and isinstance(b, ast.Compare) and len(b.ops) == 1 and isinstance(b.ops[0], ast.Is)
+                and isinstance(b.comparators[0], ast.Constant) and b.comparators[0].value is None
+                and isinstance(b.left, ast.Attribute) and b.left.attr == a.left.value
+                and self.key(b.left.value) == self.key(a.comparators[0])):
+            return None
+        k = self.key(b.left)
+        return k if k in self.spec.get("absent_or_none", ()) and k in self.places else None
 
     def s_If(self, st, rest, env, frame):
         t = st.test
@@ -1747,6 +1831,18 @@ class Translator:
             if v.typ == inner:
                 env2, line = self.bind(t.left, V(f"(Option.getD {x.term} {v.term})", inner), env, st)
                 return line + "\n" + self.block(rest, env2, frame)
+        an = self.absent_or_none(t)
+        if (an is not None and not st.orelse and st.body and isinstance(st.body[-1], (ast.Return, ast.Raise))
+                and env.get(("place", an)) is not None and env[("place", an)].typ.startswith("Option ")):
+            # spec `absent_or_none`: `if 'a' not in ns or ns.a is None: …; return` on a place `ns.a : Option T` whose `none` stands for
+            # "attribute absent, or None" — what follows runs with the value itself
+            x = env[("place", an)]
+            nv = self.fresh("py_n")
+            env_s = dict(env)
+            env_s[("place", an)] = V(nv, elem_type(x.typ))
+            a = self.block(st.body, env, frame)
+            b = self.block(rest, env_s, frame)
+            return f"match {x.term} with\n| none => (\n{ind(a)})\n| some {nv} => (\n{ind(b)})"
         if (self.spec.get("narrow_not_none") and isinstance(t, ast.Compare) and len(t.ops) == 1 and isinstance(t.ops[0], ast.Is)
                 and isinstance(t.left, ast.Name) and isinstance(t.comparators[0], ast.Constant) and t.comparators[0].value is None
                 and t.left.id in env and env[t.left.id].typ.startswith("Option ") and t.left.id not in self.spec.get("maybe_locals", {})
